@@ -434,6 +434,11 @@ static bool dive(Session &ss, Src &s) {
 }
 
 static void run_script(Session &ss, Src &s, bool literal, unsigned max_steps) {
+    if (!literal && (ss.pb.input.n & 1)) {
+        // the README's usage: verify first, then traverse (a successful verify leaves the cursor at the start)
+        if (!binson_parser_verify(ss.pb.p)) ss.fail("verify", "ret=false", "verify rejected a valid document before the traversal");
+        ss.note("verify");
+    }
     for (unsigned i = 0; i < max_steps; i++) {
         if (s.dry() && ss.cur.in_root() && i > 0) {
             // source exhausted: finish the traversal by leaving everything
